@@ -186,6 +186,24 @@ Section H.
     intros ->. eapply accepted_covers; eauto.
   Qed.
 
+  (* C10: a dry-run build leaves the whole world - files and recorded states - as it was, for
+     every project, selection, schedule, also when tasks are marked persist *)
+  Theorem dry_run_world_unchanged c ts faults pref w :
+    dry_run c = true -> x_world (buildf c ts faults pref w) = w.
+  Proof.
+    intros D.
+    pose proof (build_shape_of is_word lower body c ts faults pref w) as BS.
+    destruct BS as [|E desel|E desel s0 b D' F Hb]; cbn [x_world]; auto.
+    subst b. apply (loop_pres c ts E desel faults pref (fun v => v = w)); auto.
+    intros v t dyn _ ->. apply dry_run_world. exact D.
+  Qed.
+
+  (* ... hence any build that follows behaves exactly as if the dry run had not taken place *)
+  Corollary dry_run_does_not_interfere c ts faults pref w c' ts' faults' pref' :
+    dry_run c = true ->
+    buildf c' ts' faults' pref' (x_world (buildf c ts faults pref w)) = buildf c' ts' faults' pref' w.
+  Proof. intros D. rewrite dry_run_world_unchanged by exact D. reflexivity. Qed.
+
   (* ------------------------------------------------------------ histories *)
   (* a fixed catalogue of task definitions: every project of the history draws from it *)
   Variable defn : N -> option task.
